@@ -360,7 +360,9 @@ def logical_lines(text, marker):
     for ln in text.split("\n"):
         phys.append(ln)
         body = ln.rstrip()
-        if body.endswith(marker) and not body.lstrip().startswith(("!", "#")):
+        code = split_comment(body, "fortran" if marker == "&" else "python")[0].rstrip()
+        if code.endswith(marker):
+            # a marker inside a comment does not continue anything
             cur += body[:-1].rstrip(" ") + " "
         else:
             out.append((cur + body.lstrip() if cur else body, phys))
@@ -368,6 +370,14 @@ def logical_lines(text, marker):
     if cur or phys:
         out.append((cur, phys))
     return out
+
+
+# user-supplied lines go through the same wrapping: comment characters inside string literals, a long trailing comment
+PREAMBLE = """
+character(len=40), parameter :: verif_a = 'warning! state left the region', verif_b = 'clamping it! now', verif_c = 'x'
+integer, parameter :: verif_k = 3 ! a trailing comment that makes this line considerably longer than eighty columns
+character(len=60), parameter :: verif_d = "it's a text with an exclamation mark! and more of it", verif_e = 'y'
+"""
 
 
 def check_generated(case):
@@ -407,7 +417,7 @@ def check_generated(case):
                 return "generated Python line %d holds %d tokens and is %d columns wide: %r" % (k + 1, n, len(ln), ln[:120])
         return None
     try:
-        cg, text = F.generate(dag, method["ulen"])
+        cg, text = F.generate(dag, method["ulen"], module_preamble=PREAMBLE)
     except Exception:
         return None             # C03's business
     raw = [l for l in cg.module_emitter.code]
@@ -422,7 +432,7 @@ def check_generated(case):
                 continue
             core = body[:-1] if body.endswith("&") else body
             try:
-                n = len(chunks(core))
+                n = len(chunks(split_comment(core, "fortran")[0]))      # a trailing comment stays with its statement
             except Exception:
                 n = 2
             if n > 1 and len(body) > width:
